@@ -111,19 +111,29 @@ Inductive res :=
 
 Definition memb (b : bytes) (l : list bytes) : bool := existsb (bytes_eqb b) l.
 
+(* bbolt's Bucket.Put refuses the empty key (ErrKeyRequired) and keys longer than
+   MaxKeySize = 32768 bytes (ErrKeyTooLarge) *)
+Definition key_ok (k : bytes) : bool :=
+  match k with
+  | [] => false
+  | _ => N.leb (N.of_nat (length k)) 32768%N
+  end.
+
+(* compact literal for long constant byte strings (over-long keys in cases files) *)
+Definition rep (x n : N) : bytes := repeat x (N.to_nat n).
+
 Section Exec.
   Variable dec : list bytes.   (* stored byte strings that Unmarshal accepts *)
 
   Definition exec_op (n : bytes) (d : db) (o : op) : db * res :=
     match o with
     | OSave k v =>
-        match k with
-        | [] => (d, RErr)                           (* bbolt: key required *)
-        | _ => match bget d (data_bucket n) with
-               | None => (d, RCrash)
-               | Some m => (bset d (data_bucket n) (aput m k v), ROk)
-               end
-        end
+        if key_ok k
+        then match bget d (data_bucket n) with
+             | None => (d, RCrash)
+             | Some m => (bset d (data_bucket n) (aput m k v), ROk)
+             end
+        else (d, RErr)                              (* bbolt: key required / key too large *)
     | OLoad k =>
         match bget d (data_bucket n) with
         | None => (d, RCrash)
@@ -154,13 +164,12 @@ Section Exec.
         end
     | OAddPut x k v =>
         let d1 := bcreate d (add_bucket n x) in
-        match k with
-        | [] => (d1, RErr)
-        | _ => match bget d1 (add_bucket n x) with
-               | None => (d1, RCrash)
-               | Some m => (bset d1 (add_bucket n x) (aput m k v), ROk)
-               end
-        end
+        if key_ok k
+        then match bget d1 (add_bucket n x) with
+             | None => (d1, RCrash)
+             | Some m => (bset d1 (add_bucket n x) (aput m k v), ROk)
+             end
+        else (d1, RErr)
     | OAddGet x k =>
         let d1 := bcreate d (add_bucket n x) in
         match bget d1 (add_bucket n x) with
